@@ -362,6 +362,7 @@ def adp_cases(tier):
   from checks import eam_api as _ea
   cs += _ea.surplus_cases("eam_adp", tier)
   cs += _ea.after_failure_cases("eam_adp", tier)
+  cs += _ea.written_first_cases("eam_adp", tier)
   return cs
 
 
